@@ -42,6 +42,8 @@ class Ty:
             return [1, 2]
         if self.kind in ("enum",):
             return "no_such_variant"
+        if self.kind == "phantom":
+            return 5
         return {"x": {"y": []}}
 
     def __repr__(self):
@@ -137,6 +139,8 @@ def _shape(rng, d):
 SHAPE = Ty("svmon::Shape", _shape, "enum")
 
 SCALARS = [BOOL, U8, U32, U64, I32, I64, STRING, UINT128, ADDR, BINARY, COIN, PT, SHAPE]
+# a marker argument: one more entry of the message, always `null`
+PHANTOM = Ty("std::marker::PhantomData<u32>", lambda r, d: None, "phantom")
 
 
 def option(t):
@@ -164,6 +168,8 @@ def btmap(t):
 
 def random_type(rng, depth=0):
     c = rng.random()
+    if depth == 0 and c < 0.02:
+        return PHANTOM
     if depth >= 2 or c < 0.6:
         return rng.choice(SCALARS)
     if c < 0.72:
